@@ -293,6 +293,81 @@ def check(ctx):
             raise core.Machinery("specification no longer exposes the drain race of 7.0.0")
     # ... and code under every schedule with bounded pre-emptions
     check_threads(ctx, thorough)
+    check_pid_exists_midcall(ctx)
+
+
+# ---------------------------------------------------------------------------
+# pid_exists() with the kernel moving under it
+# ---------------------------------------------------------------------------
+
+def _pe_midcall(job):
+    """Forked.  One kernel event placed before the k-th OS access of one
+    pid_exists(n) call.  The call is one step of ProcIter.tla (PidExists): its
+    answer must be the truth either just before or just after the event."""
+    what, ev, k = job
+    w, ps = template()
+    for pid in list(w.procs):
+        if pid != w.caller_pid:
+            del w.procs[pid]
+    p = w.spawn(40, comm=b"holder", ppid=1, start=100)
+    p.threads = {40: Thread(b"holder", 1, 2), 45: Thread(b"worker", 1, 2)}
+    z = w.spawn(50, comm=b"zed", ppid=1, start=120)
+    z.state = "Z"
+    n = {"pid": 40, "tid": 45, "zombie": 50, "absent": 60}[what]
+
+    def truth():
+        return n in w.procs          # a process (zombie included) -- not a thread, not an absent number
+
+    def event():
+        if ev == "thread-exits":
+            w.procs[40].threads.pop(45, None)
+        elif ev == "process-exits":
+            w.procs.pop(40, None)
+        elif ev == "zombie-reaped":
+            w.procs.pop(50, None)
+        elif ev == "number-taken":
+            w.spawn(60, comm=b"newcomer", ppid=1, start=300)
+        elif ev == "number-taken-by-thread":
+            w.procs[40].threads[60] = Thread(b"late", 1, 2)
+    before = truth()
+    a0 = w.acc
+    w.hooks.setdefault(a0 + k, []).append(event)
+    try:
+        got = ps.pid_exists(n)
+    except Exception as ex:  # noqa: BLE001
+        got = "raised %r" % (ex,)
+    fired = (a0 + k) not in w.hooks
+    w.hooks.pop(a0 + k, None)
+    if not fired:
+        return {"fired": False, "accesses": w.acc - a0}
+    after = truth()
+    ok = got in (before, after)
+    return {"fired": True, "ok": ok, "got": got, "before": before, "after": after,
+            "log": [(o, pth) for _, o, pth in w.log[-(w.acc - a0):]]}
+
+
+def check_pid_exists_midcall(ctx):
+    plans = [("tid", "thread-exits"), ("tid", "process-exits"), ("pid", "process-exits"), ("pid", "thread-exits"),
+             ("zombie", "zombie-reaped"), ("absent", "number-taken"), ("absent", "number-taken-by-thread")]
+    jobs = [(what, ev, k) for what, ev in plans for k in range(0, 8)]
+    res = forkpool.map_fork(_pe_midcall, jobs)
+    nfired = 0
+    for job, (st, val) in zip(jobs, res):
+        if st != "ok":
+            raise core.Machinery("pid_exists mid-call worker failed: %s" % (val,))
+        if not val["fired"]:
+            continue
+        nfired += 1
+        ctx.case(("pid_exists-midcall",) + job)
+        if not val["ok"]:
+            ctx.disagree("conf:pid_exists:midcall:%s:%s" % job[:2],
+                         "pid_exists(%s) with '%s' just before its OS access #%d -> %r; the truth was %r before the event "
+                         "and %r after it  [accesses of the call: %s]" % (job[0], job[1], job[2], val["got"], val["before"],
+                                                                        val["after"], val["log"]),
+                         {"pid_exists_midcall": list(job)})
+    if nfired < 8:
+        raise core.Machinery("vacuity: only %d kernel events could be placed inside pid_exists() calls" % nfired)
+    ctx.cov["pid_exists_midcall"] = {"placements": len(jobs), "inside_the_call": nfired}
 
 
 def replay_all(ctx, thorough, vacuity=True, only=None):
@@ -408,6 +483,10 @@ def check_threads(ctx, thorough):
 def replay(ctx, data):
     """Re-run a recorded behaviour on the working tree; True if code and
     specification still disagree."""
+    if "pid_exists_midcall" in data.get("replay", {}):
+        st, val = forkpool.fork_call(_pe_midcall, tuple(data["replay"]["pid_exists_midcall"]))
+        print("  ->", st, val)
+        return st != "ok" or (val["fired"] and not val["ok"])
     if "events" not in data.get("replay", {}):
         return False
     st, val = forkpool.fork_call(run_events, (data['replay']['events'],))
